@@ -133,3 +133,53 @@ int ok_status__used(const bn_t r, const bn_t s, const uint8_t *msg, size_t len, 
 	}
 	return x;
 }
+
+/* the integer decoded from the signature is range-checked before it is overwritten by the exponentiation */
+int ok_dec__cp_sd_ver(const uint8_t *sig, size_t sig_len, const uint8_t *msg, size_t len, const bn_t n) {
+	bn_t eb, m;
+	int result = 0;
+	bn_null(eb);
+	bn_null(m);
+	RLC_TRY {
+		bn_new(eb);
+		bn_new(m);
+		bn_read_bin(eb, sig, sig_len);
+		if (bn_cmp(eb, n) != RLC_LT) {
+			RLC_THROW(ERR_NO_VALID);
+		}
+		bn_mxp_dig(eb, eb, 3, n);
+		bn_read_bin(m, msg, len);
+		result = (bn_cmp(eb, m) == RLC_EQ);
+	} RLC_CATCH_ANY {
+		result = 0;
+	} RLC_FINALLY {
+		bn_free(eb);
+		bn_free(m);
+	}
+	return result;
+}
+
+/* the range test is applied after the exponentiation has reduced the value: sig + n passes */
+int bad_ver_guard__after_reduction__cp_sd_ver(const uint8_t *sig, size_t sig_len, const uint8_t *msg, size_t len, const bn_t n) {
+	bn_t eb, m;
+	int result = 0;
+	bn_null(eb);
+	bn_null(m);
+	RLC_TRY {
+		bn_new(eb);
+		bn_new(m);
+		bn_read_bin(eb, sig, sig_len);
+		bn_mxp_dig(eb, eb, 3, n);
+		if (bn_cmp(eb, n) != RLC_LT) {
+			RLC_THROW(ERR_NO_VALID);
+		}
+		bn_read_bin(m, msg, len);
+		result = (bn_cmp(eb, m) == RLC_EQ);
+	} RLC_CATCH_ANY {
+		result = 0;
+	} RLC_FINALLY {
+		bn_free(eb);
+		bn_free(m);
+	}
+	return result;
+}
